@@ -104,6 +104,8 @@ class World:
         self.post = [None] * n                    # ... and right after it, before anything else runs
         self.waiters = []                         # dicts: name, side, kind, task
         self.probes = {}                          # family -> is its release mechanism armed?
+        self.callback_exceptions = []             # exceptions that escaped a callback of the loop
+        self.loop.set_exception_handler(self._on_loop_exception)
         self.link = LocalLink()
         addrs = ['F0:F0:F0:F0:F0:F0', 'F1:F1:F1:F1:F1:F1', 'F2:F2:F2:F2:F2:F2']
         self.controllers = [Controller(f'C{i}', link=self.link, public_address=addrs[i]) for i in range(n)]
@@ -121,6 +123,22 @@ class World:
         self.conns = [None] * n                   # the connection under test, as seen by sides 0 and 1
         self.handle = [None] * n
         self.aux_conns = [None, None]             # second link of stack 0 (to stack 2): [side 0's, side 2's]
+
+    def _on_loop_exception(self, loop, context):
+        """An exception escaped from a loop callback: an HCI packet handler (and every event
+        listener below it) or the cut itself.  Recorded with the innermost bumble function."""
+        exc = context.get('exception')
+        if exc is None or 'handle' not in context:
+            return      # (unretrieved task exceptions etc. are judged through the awaited calls)
+        where = '?'
+        tb = exc.__traceback__
+        while tb is not None:
+            code = tb.tb_frame.f_code
+            if '/bumble/' in code.co_filename:
+                where = getattr(code, 'co_qualname', code.co_name)
+            tb = tb.tb_next
+        self.callback_exceptions.append({'type': type(exc).__name__, 'where': where,
+                                         'after_cut': self.cut_fired, 'count': self.count})
 
     # ---- deterministic loop control
     async def settle(self):
@@ -181,6 +199,8 @@ class World:
             raise Budget('connection not established')
         self.conns[0], self.conns[1] = got[0], got[1]
         self.handle[0], self.handle[1] = got[0].handle, got[1].handle
+        for c in (got[0], got[1]):
+            app_listeners(c)
         if self.aux:
             d2 = self.devices[2]
             await self.wait(d2.start_advertising(advertising_interval_min=1.0))
@@ -189,6 +209,8 @@ class World:
             if got.get(2) is None:
                 raise Budget('second connection not established')
             self.aux_conns[1] = got[2]
+            app_listeners(self.aux_conns[0])
+            app_listeners(self.aux_conns[1])
             self.handle[2] = -1          # stack 2 never sees the connection under test
 
     def spawn(self, name, side, kind, coro):
@@ -223,6 +245,17 @@ class World:
         if handle == self.handle[side] and self.pre[side] is None:
             self.pre[side] = snapshot(self, side)
             self.pre_waiters[side] = pending_kinds(self, side)
+
+
+APP_EVENTS = ('disconnection', 'connection_encryption_change', 'connection_encryption_key_refresh',
+              'connection_att_mtu_update', 'connection_parameters_update', 'connection_phy_update',
+              'connection_data_length_change', 'pairing', 'pairing_failure', 'pairing_start')
+
+
+def app_listeners(connection):
+    """what an application or a profile does: listen to the connection's events"""
+    for ev in APP_EVENTS:
+        connection.on(ev, lambda *args, **kwargs: None)
 
 
 def _world_fanout_post(self, side, handle):
@@ -600,6 +633,79 @@ async def prep_pair(w):
     _pairing(w)
 
 
+async def prep_pair_rejected_once(w, silent_after=False):
+    # the first pairing attempt is rejected by the responder's user; the next one is accepted
+    # (or, silent_after, never answered)
+    from bumble.pairing import PairingConfig, PairingDelegate
+    state = {'n': 0}
+
+    class Moody(PairingDelegate):
+        async def accept(self):
+            state['n'] += 1
+            return state['n'] > 1
+
+        async def confirm(self, auto=False):
+            if silent_after:
+                await asyncio.get_running_loop().create_future()
+            return True
+
+    w.devices[0].pairing_config_factory = lambda connection: PairingConfig(
+        sc=True, mitm=False, bonding=True, delegate=PairingDelegate())
+    w.devices[1].pairing_config_factory = lambda connection: PairingConfig(
+        sc=True, mitm=False, bonding=True, delegate=Moody())
+    try:
+        await w.wait(w.conns[0].pair(), 'first pairing attempt')
+        raise Budget('the first pairing attempt was expected to fail')
+    except Budget:
+        raise
+    except Exception:
+        pass
+    await w.settle()
+
+
+async def prep_pair_rejected_once_silent(w):
+    await prep_pair_rejected_once(w, silent_after=True)
+
+
+async def prep_gatt_failed_once(w):
+    # a request that the server answers with an Error Response, then the procedure proper
+    await prep_gatt(w)
+    try:
+        await w.wait(w.client.read_value(0x7FFF), 'read of an invalid handle')
+    except Budget:
+        raise
+    except Exception:
+        pass
+    await w.settle()
+
+
+async def prep_coc_refused_once(w):
+    # a connection request to a PSM nobody listens on is refused; then the server appears
+    from bumble import l2cap
+    try:
+        await w.wait(w.conns[0].create_l2cap_channel(spec=l2cap.LeCreditBasedChannelSpec(PSM_LE)), 'refused coc')
+        raise Budget('the first channel request was expected to be refused')
+    except Budget:
+        raise
+    except Exception:
+        pass
+    await prep_coc_server(w)
+    await w.settle()
+
+
+async def prep_classic_refused_once(w):
+    from bumble import l2cap
+    try:
+        await w.wait(w.conns[0].create_l2cap_channel(spec=l2cap.ClassicChannelSpec(PSM_CLASSIC)), 'refused channel')
+        raise Budget('the first channel request was expected to be refused')
+    except Budget:
+        raise
+    except Exception:
+        pass
+    await prep_classic_server(w)
+    await w.settle()
+
+
 async def prep_paired(w):
     # the link under test is already paired (its SMP session stays until the disconnection)
     await prep_gatt(w)
@@ -668,6 +774,16 @@ PROCEDURES = {
         w.spawn('eatt indicate', 1, 'indicate', w.devices[1].gatt_server.indicate_subscribers(w.ch, b'abc'))]),
     'paired_read': (False, prep_paired, lambda w: [w.spawn('read', 0, 'gatt_request', w.cp.read_value())]),
     'smp_pair': (False, prep_pair, lambda w: [w.spawn('pair', 0, 'pair', w.conns[0].pair())]),
+    # history-dependent: a FAILED attempt of the same kind on the same connection, then the retry
+    'smp_pair_retry': (False, prep_pair_rejected_once, lambda w: [w.spawn('pair', 0, 'pair', w.conns[0].pair())]),
+    'smp_pair_retry_prompt': (False, prep_pair_rejected_once_silent, lambda w: [
+        w.spawn('pair', 0, 'pair', w.conns[0].pair())]),
+    'gatt_read_retry': (False, prep_gatt_failed_once, lambda w: [
+        w.spawn('read', 0, 'gatt_request', w.cp.read_value())]),
+    'coc_connect_retry': (False, prep_coc_refused_once, lambda w: [
+        w.spawn('coc connect', 0, 'l2cap_connect', _coc_connect(w))]),
+    'cl2cap_connect_retry': (True, prep_classic_refused_once, lambda w: [
+        w.spawn('l2cap connect', 0, 'l2cap_connect', _classic_connect(w))]),
     'smp_pair_prompt': (False, prep_pair_prompt, lambda w: [w.spawn('pair', 0, 'pair', w.conns[0].pair())]),
     'coc_connect': (False, prep_coc_server, lambda w: [
         w.spawn('coc connect', 0, 'l2cap_connect', _coc_connect(w))]),
@@ -744,7 +860,7 @@ async def _rfcomm_start(w):
 
 CUTS = [('disc', 0), ('disc', 1), ('loss', 0), ('loss', 1)]
 # uncut run does not end with a result: Read RSSI is rejected by the virtual controller; the user never answers
-OPEN_ENDED = ('hci_rssi', 'smp_pair_prompt')
+OPEN_ENDED = ('hci_rssi', 'smp_pair_prompt', 'smp_pair_retry_prompt')
 # not run in the two-link variant (long; the second link adds nothing new to them)
 NO_AUX = ('gatt_flood', 'coc_drain', 'gatt_discover')
 
@@ -794,6 +910,7 @@ async def _run_case(proc, cut, k, inline=False):
         res['budget'] = str(e)
     res['packets'] = w.count
     res['cut_fired'] = w.cut_fired
+    res['callback_exceptions'] = list(w.callback_exceptions)
     res['pre'] = w.pre
     res['pre_waiters'] = w.pre_waiters
     res['post'] = w.post
@@ -902,6 +1019,15 @@ def oracle(res):
                 if stale:
                     bad.append((f'{tag}:stale:{reg}',
                                 f'{tag} k={k}: side {side} registry {reg} still holds {stale} after handle {h} closed'))
+    seen_exc = set()
+    for e in res.get('callback_exceptions', []):
+        # No exception may escape a listener while the stacks tear the connection down: it aborts
+        # the synchronous fan-out for every listener after it.
+        if e['after_cut'] and e['where'] not in seen_exc:
+            seen_exc.add(e['where'])
+            bad.append((f'{tag}:exception:{e["where"]}',
+                        f'{tag} k={k}: {e["type"]} raised in {e["where"]} escaped from an event handler during '
+                        f'the teardown (the rest of the disconnection fan-out is skipped)'))
     if cut is not None and cut[0] == 'disc' and res['cut_fired'] and 'aux_handle' not in res:
         # both stacks have closed the connection: nothing the stacks spawned for it may still be waiting
         for name in res.get('internal_tasks_left', []):
